@@ -337,6 +337,9 @@ func (rw *rewriter) file(f *ast.File, fname string) bool {
 		case *ast.GoStmt:
 			c.Replace(rw.goStmt(n))
 		case *ast.CallExpr:
+			if rw.loggerNew(c, n) {
+				return false
+			}
 			rw.call(n)
 		case *ast.SelectorExpr:
 			// clock reads of the code under test (time.Now / Since / Until, called or passed as values):
@@ -387,6 +390,37 @@ func recvName(e ast.Expr) string {
 		return recvName(t.X)
 	}
 	return "?"
+}
+
+// loggerNew: logrus.New() of the code under test -> a logger whose output passes through the
+// simulated log device first (func() *logrus.Logger { l := logrus.New(); l.Out = simrt.LogWriter(l.Out); return l }()).
+func (rw *rewriter) loggerNew(c *astutil.Cursor, n *ast.CallExpr) bool {
+	sel, ok := n.Fun.(*ast.SelectorExpr)
+	if !ok || sel.Sel.Name != "New" || len(n.Args) != 0 || !*flagBlocking {
+		return false
+	}
+	id, ok := sel.X.(*ast.Ident)
+	if !ok {
+		return false
+	}
+	pn, ok := rw.info.Uses[id].(*types.PkgName)
+	if !ok || pn.Imported().Path() != "github.com/sirupsen/logrus" {
+		return false
+	}
+	rw.site("logsink", n.Pos(), "")
+	rw.used = true
+	l := ast.NewIdent("simL")
+	lit := &ast.FuncLit{
+		Type: &ast.FuncType{Params: &ast.FieldList{}, Results: &ast.FieldList{List: []*ast.Field{{Type: &ast.StarExpr{X: &ast.SelectorExpr{X: ast.NewIdent(id.Name), Sel: ast.NewIdent("Logger")}}}}}},
+		Body: &ast.BlockStmt{List: []ast.Stmt{
+			&ast.AssignStmt{Lhs: []ast.Expr{l}, Tok: token.DEFINE, Rhs: []ast.Expr{&ast.CallExpr{Fun: &ast.SelectorExpr{X: ast.NewIdent(id.Name), Sel: ast.NewIdent("New")}}}},
+			&ast.AssignStmt{Lhs: []ast.Expr{&ast.SelectorExpr{X: l, Sel: ast.NewIdent("Out")}}, Tok: token.ASSIGN,
+				Rhs: []ast.Expr{simCall("LogWriter", &ast.SelectorExpr{X: l, Sel: ast.NewIdent("Out")})}},
+			&ast.ReturnStmt{Results: []ast.Expr{l}},
+		}},
+	}
+	c.Replace(&ast.CallExpr{Fun: lit})
+	return true
 }
 
 func (rw *rewriter) call(n *ast.CallExpr) {
